@@ -34,6 +34,8 @@ TCompare ==
         /\ Tr[l].dgeo[mesh.nn] <= 100)          \* derived fields: 1e-6 relative (quantum 1e-8)
   /\ Clause("GeometryIsForSettingsInForce", mesh.geo = None \/ (mesh.geo = mesh.nn /\ mesh.pos = mesh.nn))
   /\ Clause("OtherSettingsUnaffected", Tr[l].user_options_unchanged = 1)
+  \* the options the equilibrium holds (and the grid file embeds) are those of the setting in force
+  /\ Clause("RecordedOptionsAreSettingsInForce", mesh.geo # None => Tr[l].opts_recorded[mesh.nn] = 1)
   /\ UNCHANGED vars
 
 TLNext == TBuildEq \/ TBuild \/ TCalc \/ TRedis \/ TGeom \/ TCompare
